@@ -93,13 +93,29 @@ def run(ctx):
         else:
             rs.violate("Input::skip: cursor advance", "skip(n) does not advance by the lengths of the first n chars of get() in the reviewed way: %s" % [s["key"] for s in sites],
                        sites[0]["loc"] if sites else None)
+    # Skip<Strings> is what the optimizer makes of `(!(s1 | ..) ~ ANY)*`: it never fails and goes on from where skip_until left the
+    # cursor, found or not (seed C19-8: the parse twin handed back the starting cursor when no terminator was found)
+    for key, pid, cid, loc, im in world.twin_pairs():
+        if im.self_adt()[0] != "pest_typed::predefined_node::Skip":
+            continue
+        for fid, mode in ((pid, "parse"), (cid, "check")):
+            t = world.tree(fid)
+            k2 = "%s [%s]" % (key, mode)
+            evs = list(classes.events(t))
+            sk = [e for e in evs if e[2][0] == "skip_until"]
+            leaves = list(classes.all_leaves(t))
+            ok = len(sk) == 1 and sk[0][2][2] == "IN" and leaves and all(lf[1] == "RET_OK" and lf[2] == ("out", sk[0][1]) for lf in leaves)
+            if ok:
+                rs.inst(k2, loc, "ok", {"class": "skip-until"})
+            else:
+                rs.violate(k2, "Skip does not always succeed with the cursor skip_until left (leaves: %s)" % [" ".join(map(str, lf[1:3])) for lf in leaves][:4], loc, edt.fmt(t))
     rb.require(12, "repetition functions")
-    rs.require(9, "raw combinator functions")
+    rs.require(11, "raw combinator functions")
     # twins of these types
     def only(im):
         p, _ = im.self_adt()
         return p in (REP + "RepeatMin", REP + "RepeatMinMax", REP + "AtomicRepeat", "array", "tuple", "core::option::Option",
-                     "pest_typed::predefined_node::SkipChar")
+                     "pest_typed::predefined_node::SkipChar", "pest_typed::predefined_node::Skip")
     c03.twin_rule(ctx, world, rt, only)
     rt.require(10, "twin pairs")
     # aliases
